@@ -12,6 +12,9 @@ family `copied_var`: a term that contains an unbound variable which is itself th
   yp.variable() as the control - is asserted (assert_fact / assertz / asserta, at depth 0 / 1 / twice); THEN the variable is
   bound to `a`. While the binding lasts and after it is undone the new fact must match `b` and `a` alike (exactly one answer each)
   and a query with a fresh variable must leave that variable unbound-or-bound-to-a-fresh-variable (never `a`).
+family `bound_nested`: the asserted term mentions a variable (top level, nested in compounds / a list, twice) that is bound - directly
+  or through another variable - to an atom, a compound or a partial list when the fact is asserted; after the binding is undone and
+  while the variable is bound to something else the fact matches exactly the value of that moment, at every depth.
 """
 import itertools
 import json
@@ -42,8 +45,13 @@ def partitions(n):
 def parse(yp, s, env):
     s = s.strip()
     if s.startswith('['):
-        h, t = s[1:-1].split('|')
-        return yp.listpair(parse(yp, h, env), parse(yp, t, env))
+        inner, depth = s[1:-1], 0
+        for i, ch in enumerate(inner):
+            depth += ch in '(['
+            depth -= ch in ')]'
+            if ch == '|' and depth == 0:
+                return yp.listpair(parse(yp, inner[:i], env), parse(yp, inner[i + 1:], env))
+        raise ValueError(s)
     if '(' in s:
         name, rest = s.split('(', 1)
         rest = rest[:-1]
@@ -191,7 +199,53 @@ def run_copied(sc):
     return not probs, '; '.join(probs[:4]) or 'ok'
 
 
+NESTED_SHAPES = ['{0}', 'g({0})', 'p({0},{0})', 'p(k,g({0}))', '[{0}|end]', 'g(h({0}))', 'p({0},g({0}))']
+NESTED_VALUES = {'atom': 'a', 'struct': 'g(a)', 'list': '[a|b]'}
+
+
+def run_bound_nested(sc):
+    """the asserted term mentions a variable V (at the top, nested, twice) that is BOUND at the moment of the assertion (directly or
+    through another variable); when the binding is undone - and while V is bound to something else - the fact still holds the value"""
+    yp = engine.YP()
+    V, Y = yp.variable(), yp.variable()
+    val = parse(yp, NESTED_VALUES[sc['value']], {})
+    steps = [(V, Y), (Y, val)] if sc['chain'] else [(V, val)]
+
+    def nest(i):
+        if i == len(steps):
+            do_assert(yp, sc['how'], 'st', [parse(yp, sc['shape'].format('V'), {'V': V}), yp.atom('k')])
+            return
+        for _ in engine.unify(steps[i][0], steps[i][1]):
+            nest(i + 1)
+    nest(0)
+    probs = []
+    if engine.get_value(V) is not V:
+        probs.append('harness: V still bound')
+
+    def probe(tag):
+        for inst, want in ((NESTED_VALUES[sc['value']], 1), ('zz', 0)):
+            n = count(yp, 'st', [parse(yp, sc['shape'].format(inst), {}), yp.variable()])
+            if n != want:
+                probs.append('%s: st(%s, _) has %d answer(s), expected %d' % (tag, sc['shape'].format(inst), n, want))
+        env = {}
+        got = []
+        for _ in yp.query('st', [parse(yp, sc['shape'].format('F'), env), yp.variable()]):
+            try:
+                got.append(engine.to_python(engine.get_value(env['F'])))
+            except Exception as e:       # noqa
+                got.append('raised %s' % type(e).__name__)
+        want = engine.to_python(parse(yp, NESTED_VALUES[sc['value']], {})) if sc['value'] != 'list' else None
+        if len(got) != 1 or (want is not None and got != [want]):
+            probs.append('%s: st(%s, _) gives F = %r' % (tag, sc['shape'].format('F'), got))
+    probe('after the binding was undone')
+    for _ in engine.unify(V, yp.atom('zz')):
+        probe('while V is bound to zz')
+    return not probs, '; '.join(probs[:4]) or 'ok'
+
+
 def run(sc):
+    if sc['family'] == 'bound_nested':
+        return run_bound_nested(sc)
     return run_patterns(sc) if sc['family'] == 'patterns' else run_copied(sc)
 
 
@@ -208,6 +262,8 @@ def scenarios(seed, count):
                     out.append(dict(family='patterns', skeleton=si, p1=list(p1), p2=list(p2), how1=h1, how2=h2, retract_first=rf))
     for s, p, h in itertools.product(SOURCES, PLACES, HOW):
         out.append(dict(family='copied_var', source=s, place=p, how=h))
+    for sh, v, h, ch in itertools.product(NESTED_SHAPES, sorted(NESTED_VALUES), HOW, (False, True)):
+        out.append(dict(family='bound_nested', shape=sh, value=v, how=h, chain=ch))
     random.Random(seed).shuffle(out)
     return out[:count] if count else out
 
